@@ -2,6 +2,7 @@ import Batteries.Tactic.Alias
 import GenlmModel.Proofs.Star
 import GenlmModel.Proofs.Wfsa
 import GenlmModel.Proofs.LimWfsa
+import GenlmModel.Proofs.GapFromStrings
 /-! # C12 — rational operations implement the algebra of weighted languages
 Exact-length path identities, every commutative semiring, operands with ε arcs and several
 initial/final states. -/
@@ -30,4 +31,11 @@ alias plus_is_sum_over_factorisations := Genlm.kleenePlus_PL_series
 /-- star(A)(x) = [x = ε] + plus(A)(x), and star = 1 + A·star -/
 alias star_is_sum_over_factorisations := Genlm.star_PL_series
 alias star_unfold_limit := Genlm.star_PL_unfold
+
+/-- construction from a SET of strings: weight 1 exactly on the listed strings (the code assigns, so repetitions do not add up) -/
+alias from_strings_spec := Genlm.fromStrings_Pk
+alias from_strings_call := Genlm.fromStrings_forward
+alias from_strings_limit := Genlm.fromStrings_PL
+alias one_spec := Genlm.one_PN
+alias one_limit := Genlm.one_PL
 end Genlm.Props.C12
